@@ -426,6 +426,25 @@ class MayRaise:
                     out.add(("INT", p_, lo, hi))
                 if one_char:
                     out.add(("LEN==", p_, "1"))
+                # non-empty at every call site: a name known to be true there, or a plain copy / view of one (bytes(x), memoryview(x))
+                if p_ not in stores and any(k in annos.get(p_, "") for k in ("bytes", "bytearray", "memoryview", "str", "List", "Sequence")):
+                    nonempty = True
+                    for cfi, call in sites:
+                        a, is_default = arg_of(q, call, i, p_)
+                        if a is None or is_default:
+                            nonempty = False
+                            break
+                        base = a
+                        while isinstance(base, ast.Call) and isinstance(base.func, ast.Name) and base.func.id in ("bytes", "bytearray", "memoryview") and len(base.args) == 1 and not base.keywords:
+                            base = base.args[0]
+                        if isinstance(base, ast.Call) and isinstance(base.func, ast.Attribute) and base.func.attr == "tobytes" and not base.args:
+                            base = base.func.value
+                        cf = self.flow_for(cfi).facts_at.get(id(call), frozenset())
+                        if not (isinstance(base, (ast.Name, ast.Attribute)) and ("T", norm(base)) in cf):
+                            nonempty = False
+                            break
+                    if nonempty and sites:
+                        out.add(("T", p_))
                 # D[p] with D a module-level dict literal: every call site passes an expression that is literally one of D's keys
                 for sub in walk_no_nested(fi.node):
                     if isinstance(sub, ast.Subscript) and isinstance(sub.value, ast.Name) and isinstance(sub.slice, ast.Name) and sub.slice.id == p_ and p_ not in stores:
@@ -1233,8 +1252,10 @@ class MayRaise:
                 else:
                     r = (-INF, INF)
             elif isinstance(op, ast.LShift):
-                if al >= 0 and bl >= 0 and ah != INF and bh != INF:
+                if al >= 0 and bl >= 0 and ah != INF and bh != INF and bh <= 4096 and bl <= 4096:
                     r = (int(al) << int(bl), int(ah) << int(bh))
+                elif al >= 0 and bl >= 0:
+                    r = (0, INF)
                 else:
                     r = (-INF, INF)
             elif isinstance(op, ast.RShift):
@@ -1805,7 +1826,13 @@ class MayRaise:
                     ivs = [self.ival(x, facts, fi) for x in e.args[0].elts]
                     ok = all(lo >= 0 and hi <= 255 for lo, hi in ivs)
                     add("bytearray-store", "ValueError", ok, "elements in " + ", ".join(f"[{lo}, {hi}]" for lo, hi in ivs))
-                elif at[0] == "list" or isinstance(e.args[0], (ast.List, ast.ListComp, ast.GeneratorExp)):
+                elif isinstance(e.args[0], (ast.ListComp, ast.GeneratorExp)):
+                    # the element expression, whatever the loop variables hold: (v >> s) & 0xFF, x % 256, ... are octets by themselves
+                    lo, hi = self.ival(e.args[0].elt, frozenset(), fi)
+                    ok = lo >= 0 and hi <= 255
+                    add("bytes-from-ints", "ValueError", ok, f"element `{norm(e.args[0].elt)[:40]}` in [{lo}, {hi}]" if ok else
+                        "bytes()/bytearray() of an integer iterable: element range not established")
+                elif at[0] == "list" or isinstance(e.args[0], ast.List):
                     add("bytes-from-ints", "ValueError", False, "bytes()/bytearray() of an integer iterable: element range not established")
             return out
         if name == "typevar-ctor":
@@ -1855,6 +1882,14 @@ class MayRaise:
         if name in ("re.compile", "re.match", "re.search", "re.fullmatch", "re.sub", "re.escape"):
             if name == "re.sub" and len(e.args) >= 2:
                 out |= self.callback_escapes(e.args[1], ctx, e)
+            return out
+        if name == "functools.reduce" and len(e.args) >= 2:
+            # the function is applied to the elements: what it can raise, the reduction can raise (TypeError on an empty
+            # iterable without an initial value)
+            out |= self.callback_escapes(e.args[0], ctx, e)
+            if len(e.args) < 3:
+                at = norm(e.args[1])
+                add("reduce-empty", "TypeError", ("T", at) in facts, f"`{at}` may be empty and there is no initial value")
             return out
         if name == "object.__setattr__" or name == "int.__new__":
             return out
@@ -2077,6 +2112,9 @@ class MayRaise:
             return out
         if t in (prim("str"), prim("bytes")) or isinstance(cb, (ast.Constant, ast.JoinedStr)):
             return set()
+        if isinstance(cb, ast.Lambda) and not isinstance(fi.node, ast.Lambda):
+            li = self.r.lambda_info(fi, cb, None)
+            return self.call_summary(li, None, ctx, site, None)
         self.unknown_calls.append(f"{fi.qualname}:{site.lineno} callback {norm(cb)[:60]}")
         return {Esc("Other", fi.qualname, norm(site)[:120], site.lineno, "unknown-call")}
 
